@@ -470,13 +470,22 @@ def eigen_specs(draw):
                        else signed(0.2, 3.0)))
     return {'n': n, 'cx': cx, 'R': draw(mat(cx, n, n)), 'T': draw(tri(cx, n)), 'D': D, 'k': draw(st.integers(0, n - 1)),
             'c': c, 'mix': draw(vec(True, n)), 'kind': kind, 'rho': draw(RHO), 'eps': draw(st.sampled_from([0.3, 0.9])),
-            'dir': draw(vec(cx, n)), 'tol': tol, 'seed': draw(SEED)}
+            'dir': draw(vec(cx, n)), 'tol': tol, 'seed': draw(SEED),
+            # eigenbasis of a plane rotation: eigenvectors (1, +-i) with zero unconjugated square
+            'special': draw(st.sampled_from([None, None, None, None, 'isotropic']))}
+
+
+ROT_BASIS = {2: [[1, 1], [1j, -1j]], 3: [[1, 1, 0], [1j, -1j, 0], [0, 0, 1]],
+             4: [[1, 1, 0, 0], [1j, -1j, 0, 0], [0, 0, 1, 1], [0, 0, 1j, -1j]]}
 
 
 def judge_eigen(spec, rec):
     n, tol, kind, k = spec['n'], spec['tol'], spec['kind'], spec['k']
     R = np.array([[num(x) for x in row] for row in spec['R']], dtype=complex)
     P = unitary(R) @ build_tri(spec['T'], n)
+    if spec.get('special') == 'isotropic' and n in ROT_BASIS:
+        P = np.array(ROT_BASIS[n], dtype=complex)
+        rec.cls('eigen/isotropic-eigenvectors')
     D = np.array([num(x) for x in spec['D']], dtype=complex)
     if np.linalg.cond(P) > 200:
         raise Discard('eigen: ill-conditioned eigenbasis')
@@ -572,13 +581,17 @@ def span_specs(draw):
     return {'n': n, 'm': m, 'cx': cx, 'r0': r0, 'R': draw(mat(cx, n, n)), 'T': draw(tri(cx, r0)), 'combos': combos,
             'order': draw(st.permutations(list(range(m)))), 'coef': draw(vec(draw(st.booleans()), r0, -3.0, 3.0)),
             'kind': kind, 'rho': draw(RHO), 'eps': draw(st.sampled_from([0.3, 0.9])), 'dir': draw(vec(cx, n)),
-            'tol': draw(TOL), 'seed': draw(SEED)}
+            'tol': draw(TOL), 'seed': draw(SEED), 'special': draw(st.sampled_from([None, None, None, None, 'isotropic']))}
 
 
 def judge_span(spec, rec):
     n, m, r0, tol, kind = spec['n'], spec['m'], spec['r0'], spec['tol'], spec['kind']
     R = np.array([[num(x) for x in row] for row in spec['R']], dtype=complex)
     B = unitary(R)[:, :r0] @ build_tri(spec['T'], r0)          # n x r0, independent columns
+    if spec.get('special') == 'isotropic' and r0 >= 1:
+        B = np.array(B)
+        B[:, 0] = np.array(ISOTROPIC[n][spec['seed'] % len(ISOTROPIC[n])], dtype=complex)   # sum(b_k^2) = 0
+        rec.cls('span/isotropic-spanning-vector')
     cols = [B[:, j] for j in range(r0)] + [B @ np.array(cb, dtype=complex) for cb in spec['combos']]
     cols = [realify(cols[i]) for i in spec['order']]
     A = np.array(cols, dtype=complex).T                          # n x m, as written into the problem
@@ -662,7 +675,29 @@ def phase_specs(draw):
     theta = draw(st.one_of(fl(-math.pi, math.pi), st.sampled_from([0.0, math.pi, math.pi / 2, -math.pi / 2])))
     return {'n': n, 'cx': cx, 'v': draw(vec(cx, n, -3.0, 3.0)), 'first': draw(signed(0.3, 3.0)), 'theta': theta,
             'kind': kind, 'rho': draw(RHO), 'eps': draw(st.sampled_from([0.3, 0.9])),
-            'sign': draw(st.sampled_from([1, -1])), 'dir': draw(vec(True, n)), 'tol': draw(TOL), 'seed': draw(SEED)}
+            'sign': draw(st.sampled_from([1, -1])), 'dir': draw(vec(True, n)), 'tol': draw(TOL), 'seed': draw(SEED),
+            # structured targets a random draw never produces: complex vectors whose UNCONJUGATED square sum(t_k^2) is 0
+            # ([1, i], [3, 4, 5i], [1+i, 1-i] - circular-polarisation / null vectors), purely imaginary ones, axis vectors
+            'special': draw(st.sampled_from([None, None, None, 'isotropic', 'isotropic', 'imaginary', 'axis']))}
+
+
+ISOTROPIC = {2: [[1, 1j], [1, -1j], [1 + 1j, 1 - 1j]], 3: [[3, 4, 5j], [1, 1j, 0], [0, 1, -1j]],
+             4: [[1, 1j, 1, 1j], [1, 1j, 0, 0], [3, 4, 0, 5j]]}
+
+
+def special_target(spec, v):
+    sp = spec.get('special')
+    if sp == 'isotropic':
+        pool = ISOTROPIC[spec['n']]
+        base = np.array(pool[spec['seed'] % len(pool)], dtype=complex)
+        return base * (abs(v[0]) if abs(v[0]) >= 0.3 else 1.0)
+    if sp == 'imaginary':
+        return 1j * np.real(v) if np.linalg.norm(np.real(v)) > 0.3 else v
+    if sp == 'axis':
+        out = np.zeros(spec['n'], dtype=complex)
+        out[spec['seed'] % spec['n']] = v[0]
+        return out
+    return v
 
 
 def judge_phase(spec, rec):
@@ -670,6 +705,9 @@ def judge_phase(spec, rec):
     v = np.array([num(x) for x in spec['v']], dtype=complex)
     if abs(v[0]) < 0.3:
         v[0] = spec['first']                                      # keeps the target away from the zero vector
+    v = special_target(spec, v)
+    if spec.get('special'):
+        rec.cls('phase/target-' + spec['special'])
     v = realify(v)
     ph = cmath.exp(1j * spec['theta'])
     base = ph * v
